@@ -300,6 +300,7 @@ Proof.
     apply spawn_tasks_ok; [exact Inv | intros t [<-|[]]; single_ok].
   - simpl in H. destruct (Nat.ltb slot (length (s_slots s))); [|discriminate]. inversion H; subst; clear H.
     apply spawn_tasks_ok; [exact Inv | intros t [<-|[]]; single_ok].
+  - simpl in H. destruct (Nat.ltb r (length (s_rrs s))); [|discriminate]. inversion H; subst; clear H. exact Inv.
 Qed.
 
 Lemma init_tasks_ok : forall k progs, tasks_ok (init k progs).
